@@ -23,6 +23,9 @@ ScaledVar(a, e, n) == LET s1 == Reduce("add", a, e.args.axis, <<>>, Keep(e))  s2
                       IN IF ~s1.ok THEN Nothing ELSE [s1 EXCEPT !.elems = [q \in 1..Len(s1.elems) |-> n * s2.elems[q] - s1.elems[q] * s1.elems[q]]]
 WithDtype(r, f) == IF r.ok THEN [dtype |-> IF IsPredicate(f) THEN "bool" ELSE IF IsFloatValued(f) THEN "float" ELSE "int"] @@ r ELSE r
 
+\* the source indices of the listed result indices, concatenated
+SliceSrcIndices(shape, parts, at) ==
+    LET d == Len(shape) IN [m \in 1..(Len(at) * d) |-> SliceSrcIndex(shape, parts, at[((m - 1) \div d) + 1])[((m - 1) % d) + 1]]
 \* the meaning of one operation event applied to the first operand value a (programs thread intermediate values through it)
 RECURSIVE RunProg(_, _, _)
 ExpectWith(e, a) ==
@@ -114,6 +117,18 @@ ExpectWith(e, a) ==
       [] e.op = "shape_reshape" -> LET r == ReshapeShape(Prod(e.shapes[1]), e.args.dst) IN IF r[1] THEN [ok |-> TRUE, shape |-> r[2], elems |-> <<>>] ELSE Nothing
       \* C05
       [] e.op = "slice" -> SliceView(a, e.args.parts)
+      \* C05 at the index level (no array behind the shape: extents up to 2^31 - 1): result shape and the source index of listed result indices
+      [] e.op = "slice_index" -> IF ~SpecOk(e.shapes[1], e.args.parts) THEN Nothing
+            ELSE [ok |-> TRUE, shape |-> SliceShape(e.shapes[1], e.args.parts),
+                  elems |-> SliceSrcIndices(e.shapes[1], e.args.parts, e.args.at)]
+      \* C20: a write through a mutable view changes exactly the source element the reference view reads at that index
+      \*      (operand data is injective, value = flat position + 1: the expected changed positions are the view's elements - 1)
+      [] e.op = "mutable_write" ->
+            LET v == CASE e.args.view = "flatten" -> Flatten(a)
+                       [] e.args.view = "ref" -> a
+                       [] e.args.view = "reshape" -> Reshape(a, e.args.vargs.dst)
+                       [] e.args.view = "slice" -> SliceView(a, e.args.vargs.parts)
+            IN IF v.ok THEN [ok |-> TRUE, shape |-> v.shape, elems |-> [q \in 1..Len(v.elems) |-> v.elems[q] - 1]] ELSE Nothing
       \* C06
       [] e.op = "broadcast_shape" -> LET r == BShapeN(e.shapes) IN [ok |-> r[1], shape |-> r[2], elems |-> <<>>]
       [] e.op = "shape_broadcast_to" -> IF BroadcastToOk(e.shapes[1], e.args.dst) THEN [ok |-> TRUE, shape |-> e.args.dst, elems |-> <<>>] ELSE Nothing
